@@ -153,6 +153,24 @@ pub fn check(c: &Case, stats: &mut Stats) -> CheckResult {
     let set = HpoSet::new(&ont, group.clone());
     stats.eval(12);
     cmp_set(&set, &members, "new")?;
+    // the same members collected from terms instead of ids: in the order of the case (unsorted, repeated), in the
+    // ontology's own iteration order, and from two term iterators chained (lower half + upper half + lower half)
+    {
+        let in_order: HpoGroup = c.members.iter().filter_map(|t| ont.hpo(*t)).collect();
+        let by_walk: HpoGroup = ont.hpos().filter(|t| members.contains(&t.id().as_u32())).collect();
+        let mid = members.iter().nth(members.len() / 2).copied().unwrap_or(0);
+        let chained: HpoGroup = set.iter().filter(|t| t.id().as_u32() >= mid).chain(set.iter()).chain(set.iter().filter(|t| t.id().as_u32() < mid)).collect();
+        for (g, how) in [(in_order, "new(terms in the order given)"), (by_walk, "new(terms in the ontology's order)"), (chained, "new(chained term iterators)")] {
+            let st = HpoSet::new(&ont, g);
+            cmp_set(&st, &members, how)?;
+            check_aggregates(&st, &members, &m, &cats, how)?;
+            let want: BTreeSet<u32> = members.iter().copied().filter(|t| m.desc[m.i(*t)].intersection(&members).next().is_none()).collect();
+            cmp_set(&st.child_nodes(), &want, "child_nodes of a set collected from terms")?;
+        }
+        if c.members.windows(2).any(|w| w[0] >= w[1]) {
+            stats.label("set-collected-from-terms-not-ascending");
+        }
+    }
     // child_nodes
     let want: BTreeSet<u32> = members.iter().copied().filter(|t| m.desc[m.i(*t)].intersection(&members).next().is_none()).collect();
     let r = guarded(|| set.child_nodes()).map_err(|p| Failure { signature: "set/child_nodes/panic".into(), message: p })?;
